@@ -288,6 +288,16 @@ def gen_c20(repo):
         'self._G_c = _face_splitting(self.basis_c)',
         'self._num_bases = (self.basis_r.shape[1], self.basis_c.shape[1])',
     ])
+    fn = _method(st, 'PSpline2D', 'solve')
+    _sig(fn, 'PSpline2D.solve', (['self', 'y', 'weights', 'penalty', 'rhs_extra'], ['None', 'None']))
+    _require_body(fn, 'PSpline2D.solve', [
+        'if penalty is None:\n    penalty = self.penalty',
+        'rhs = (self.basis.basis_r.T @ (weights * y) @ self.basis.basis_c).ravel()',
+        'if rhs_extra is not None:\n    rhs = rhs + rhs_extra',
+        'self.coef = spsolve(self.basis._make_btwb(weights) + penalty, rhs)',
+        'output = self.basis.basis_r @ self.coef.reshape(self.basis._num_bases) @ self.basis.basis_c.T',
+        'return output',
+    ])
     wd, wa, wo = _make_btwb(wt, 'WhittakerSystem2D', None)
     sd, sa, so = _make_btwb(st, 'SplineBasis2D', 'csr_object')
     rep, til = _penalty(wt)
